@@ -21,6 +21,7 @@ import (
 	crand "crypto/rand"
 	"errors"
 	"fmt"
+	"net"
 	"strings"
 	"sync"
 	"time"
@@ -201,8 +202,85 @@ func genEchHS(r *Rng, i int, tier string) string {
 	pub, sn := echNames(r)
 	suites := Pick(r, []string{"1:1", "1:2", "1:3", "1:1,1:3", "2:1,1:3", "1:9,1:2", "1:3,1:1"})
 	mnl := Pick(r, []int{0, 1, 8, 16, 32, 64, 128, 255, r.Intn(256)})
-	return fmt.Sprintf("id=%s srv=%s cid=%d suites=%s mnl=%d pub=%s sn=%s cl=%s alpn=%d ks=%d",
-		id, srv, r.Intn(256), suites, mnl, pub, sn, Pick(r, echListLayouts), r.Intn(2), r.U64()>>1)
+	// what the caller does with the UConn / the spec before Handshake
+	pre := Pick(r, []string{"plain", "plain", "build1", "build2", "remarshal", "specpin", "specshared"})
+	if id == "Golang-0" && (pre == "specpin" || pre == "specshared" || pre == "remarshal") {
+		pre = Pick(r, []string{"plain", "build1", "build2"})
+	}
+	return fmt.Sprintf("id=%s srv=%s cid=%d suites=%s mnl=%d pub=%s sn=%s cl=%s alpn=%d ks=%d pre=%s",
+		id, srv, r.Intn(256), suites, mnl, pub, sn, Pick(r, echListLayouts), r.Intn(2), r.U64()>>1, pre)
+}
+
+// echPreOpts turns a pre-handshake op sequence into runHS options:
+//
+//	plain       UClient(id).Handshake()
+//	build1/2    BuildHandshakeState() once / twice (inspecting the hello), then Handshake()
+//	remarshal   BuildHandshakeState(), an explicit MarshalClientHello(), then Handshake()
+//	specpin     HelloCustom + a spec of that id whose SNIExtension already names Config.ServerName
+//	specshared  one spec object applied first to a non-ECH connection to the same host, then here
+func echPreOpts(pre string, id tls.ClientHelloID, sn string) (o HSOpts, note string) {
+	o = HSOpts{ID: id}
+	note = "ok"
+	builds := func(n int, remarshal bool) func(u *tls.UConn) error {
+		return func(u *tls.UConn) error {
+			for k := 0; k < n; k++ {
+				if err := u.BuildHandshakeState(); err != nil {
+					return err
+				}
+			}
+			if remarshal {
+				return u.MarshalClientHello()
+			}
+			return nil
+		}
+	}
+	switch pre {
+	case "build1":
+		o.Prepare = builds(1, false)
+	case "build2":
+		o.Prepare = builds(2, false)
+	case "remarshal":
+		o.Prepare = builds(1, true)
+	case "specpin", "specshared":
+		spec, err := tls.UTLSIdToSpec(id)
+		if err != nil {
+			return o, "spec:" + sanitize(err.Error())
+		}
+		if pre == "specpin" {
+			for _, e := range spec.Extensions {
+				if sni, ok := e.(*tls.SNIExtension); ok {
+					sni.ServerName = sn
+				}
+			}
+		} else {
+			// an ordinary use first: ApplyPreset fills the shared *SNIExtension (and key shares) in place
+			c0, c0peer := net.Pipe()
+			u0 := tls.UClient(c0, &tls.Config{ServerName: sn}, tls.HelloCustom)
+			err := u0.ApplyPreset(&spec)
+			if err == nil {
+				err = u0.BuildHandshakeState()
+			}
+			c0.Close()
+			c0peer.Close()
+			if err != nil {
+				note = "first:" + sanitize(err.Error())
+			}
+			// the caller hands the spec on with fresh key-share slots (ApplyPreset keeps non-empty key
+			// share data as caller-supplied keys without private halves; that is C18/C20 matter)
+			for _, e := range spec.Extensions {
+				if ks, ok := e.(*tls.KeyShareExtension); ok {
+					for k := range ks.KeyShares {
+						if len(ks.KeyShares[k].Data) > 1 {
+							ks.KeyShares[k].Data = nil
+						}
+					}
+				}
+			}
+		}
+		o.ID = tls.HelloCustom
+		o.Spec = &spec
+	}
+	return o, note
 }
 
 type echSetup struct {
@@ -335,12 +413,14 @@ func execEchHS(in KV) string {
 		mu.Unlock()
 		return nil, nil
 	}
-	res := runHS(HSOpts{ID: id, ClientCfg: cc, ServerCfg: es.serverCfg, AppData: []byte("ech-ping")})
+	hso, preNote := echPreOpts(in["pre"], id, sn)
+	hso.ClientCfg, hso.ServerCfg, hso.AppData = cc, es.serverCfg, []byte("ech-ping")
+	res := runHS(hso)
 	cls, retry := clientResult(res.ClientErr)
 	hellos := clientHellos(res.ClientWire)
 	if res.PrepareErr != nil || len(hellos) == 0 {
 		// no ClientHello at all: the model decides from the list whether that is acceptable
-		return fmt.Sprintf("out=no-hello c=%s prep=%s clist=%s", cls, errTok(res.PrepareErr), hx(es.cliList))
+		return fmt.Sprintf("out=no-hello c=%s prep=%s pre=%s clist=%s", cls, errTok(res.PrepareErr), preNote, hx(es.cliList))
 	}
 	var sb strings.Builder
 	fmt.Fprintf(&sb, "out=ok c=%s s=%s cech=%s sech=%s csn=%s ssn=%s chrr=%d retry=%s srvretry=%s echo=%s nch=%d",
@@ -354,7 +434,7 @@ func execEchHS(in KV) string {
 	for _, k := range es.srvKeys {
 		sk = append(sk, hx(k.Config)+":"+b2i(k.SendAsRetry))
 	}
-	fmt.Fprintf(&sb, " clist=%s skeys=%s", hx(es.cliList), joinList(sk))
+	fmt.Fprintf(&sb, " clist=%s skeys=%s prenote=%s", hx(es.cliList), joinList(sk), preNote)
 	// a rejected client retries with the list it was handed: that server must now accept
 	if cls == "echrej" && len(retry) > 0 {
 		c2 := &tls.Config{ServerName: sn, EncryptedClientHelloConfigList: retry, NextProtos: cc.NextProtos}
